@@ -34,6 +34,42 @@ def bad(n):
     for i in range(n):
         t += 2
     return t + (1 if n == 7 else 0)
+
+def aug(d, k, x):
+    d[k] += x
+    d[k] -= 1
+    return d[k]
+
+class CM:
+    def __init__(self, log, name, fail=False):
+        self.log, self.name, self.fail = log, name, fail
+    def __enter__(self):
+        if self.fail:
+            raise ValueError(self.name)
+        self.log.append("enter " + self.name)
+        return self
+    def __exit__(self, *a):
+        self.log.append("exit " + self.name)
+
+def withs(log, fail_second, fail_body):
+    try:
+        with CM(log, "a"), CM(log, "b", fail_second):
+            log.append("body")
+            if fail_body:
+                raise KeyError("x")
+    except (ValueError, KeyError):
+        log.append("caught")
+    return log
+
+def withs2(log, a, b, fail_body):
+    try:
+        with a, b:
+            log.append("body")
+            if fail_body:
+                raise KeyError("x")
+    except (ValueError, KeyError):
+        log.append("caught")
+    return log
 '''
 
 
@@ -115,6 +151,46 @@ def main():
     out = run(B(), "bad")
     sat = [(o, r) for o, r in out if r["verdict"] == "sat"]
     assert sat and all(r["model"].get("n") == "7" for o, r in sat), out
+    # 4. augmented assignment to a subscript stores back (engine defect found with C03)
+    class A(ToyUnit):
+        qualname = "aug"
+        def setup(self, ctx):
+            x = ctx.int("x")
+            self._x = x
+            return {"d": {"a": 5}, "k": "a", "x": x}
+        def post(self, ctx, st):
+            return [("d[k] == 5 + x - 1", to_z3(st.result) == 4 + self._x.e),
+                    ("stored back", to_z3(st.args["d"]["a"]) == 4 + self._x.e)]
+    out = run(A(), "aug")
+    assert out and all(r["verdict"] == "unsat" for o, r in out), out
+    # 5. `with a, b`: order of enter/exit also when entering b or the body fails (C10);
+    #    the managers are model objects, the reference trace comes from CPython classes
+    from . import h5model
+
+    def _enter(interp, o):
+        if o.fields["fail"]:
+            raise engine.PyRaise(ValueError, (o.fields["name"],))
+        o.fields["log"].append("enter " + o.fields["name"])
+        return o
+
+    def _exit(interp, o, *a):
+        o.fields["log"].append("exit " + o.fields["name"])
+        return None
+    h5model.OBJ_METHODS[("ToyCM", "__enter__")] = _enter
+    h5model.OBJ_METHODS[("ToyCM", "__exit__")] = _exit
+    for fs in (False, True):
+        for fb in (False, True):
+            want = ns["withs"]([], fs, fb)
+            class W(ToyUnit):
+                qualname = "withs2"
+                def setup(self, ctx, fs=fs, fb=fb):
+                    log = []
+                    mk = lambda n, f: ctx.obj("ToyCM", {"name": n, "fail": f, "log": log})   # noqa: E731
+                    return {"log": log, "a": mk("a", False), "b": mk("b", fs), "fail_body": fb}
+                def post(self, ctx, st, want=want):
+                    return [("same trace as CPython", z3.BoolVal(list(st.result) == want))]
+            out = run(W(), "withs2")
+            assert out and all(r["verdict"] == "unsat" for o, r in out), (fs, fb, want, out)
     solve.close_pool()
     print("pyvc selftest ok")
 
